@@ -5,6 +5,7 @@ import (
 	_ "embed"
 	"fmt"
 	"go/ast"
+	"go/parser"
 	"go/scanner"
 	"go/token"
 	"go/types"
@@ -709,9 +710,59 @@ func NormalizeOverlay(p *Prog, known map[string]bool, read func(path string) ([]
 			}
 			res = append(append(append([]byte{}, res[:pkgEnd]...), []byte(ib.String())...), res[pkgEnd:]...)
 		}
-		out[path] = res
+		out[path] = blankUnusedImports(p, f, res)
 	}
 	return out, notes
+}
+
+// blankUnusedImports: dropping an inlined helper can leave an import of its file without a use.
+// Such an import is turned into a blank import (`_ "path"`) in the rewritten source, so that the
+// in-memory program still type-checks; nothing else about the file changes.
+func blankUnusedImports(p *Prog, f *ast.File, src []byte) []byte {
+	var info *types.Info
+	for _, pk := range p.Pkgs {
+		for _, pf := range pk.Syntax {
+			if pf == f {
+				info = pk.TypesInfo
+			}
+		}
+	}
+	if info == nil {
+		return src
+	}
+	nf, err := parser.ParseFile(token.NewFileSet(), "", src, parser.SkipObjectResolution)
+	if err != nil {
+		return src
+	}
+	used := map[string]bool{}
+	ast.Inspect(nf, func(n ast.Node) bool {
+		if sel, ok := n.(*ast.SelectorExpr); ok {
+			if id, ok := sel.X.(*ast.Ident); ok {
+				used[id.Name] = true
+			}
+		}
+		return true
+	})
+	for _, spec := range f.Imports {
+		name := ""
+		if spec.Name != nil {
+			name = spec.Name.Name
+		} else if pn, ok := info.Implicits[spec].(*types.PkgName); ok {
+			name = pn.Name()
+		}
+		if name == "" || name == "_" || name == "." || used[name] {
+			continue
+		}
+		old := spec.Path.Value
+		if spec.Name != nil {
+			old = spec.Name.Name + " " + spec.Path.Value
+		}
+		// the import block precedes every rewritten statement: the first occurrence is the spec
+		if i := bytes.Index(src, []byte(old)); i >= 0 {
+			src = append(append(append([]byte{}, src[:i]...), []byte("_ "+spec.Path.Value)...), src[i+len(old):]...)
+		}
+	}
+	return src
 }
 
 func safeEnd(s ast.Stmt) token.Pos {
